@@ -1,7 +1,8 @@
 (* Compiled on every run of the C01 check: pins each statement and prints its assumptions. *)
 From Coq Require Import String.
 From Coq Require Import ZArith NArith List Bool Lia Arith.
-From SV Require Import lib.Core lib.Bytecode c01.Proofs_C01 c01.Properties_C01.
+From SV Require Import lib.Core lib.CoreS lib.Bytecode lib.BytecodeS c01.Proofs_C01 c01.Properties_C01.
+From SV Require c01.Proofs_C01_set.
 Import ListNotations.
 Open Scope list_scope.
 
@@ -117,6 +118,42 @@ Check (C01_callglobaltail_fusion :
   exists s1, vm_step limit (mkVM C pc st fs MG) = SNext s1 /\
              vm_step limit s1 = vm_step limit (mkVM C' pc st fs MG)).
 
+Check (C01_simulation_set :
+  forall limit tco n r e st res, beval n r e st = Some res ->
+  forall ce tail C pc below slots caps fs MG H,
+    code_at C pc (S.compile tco ce (length slots) tail e) ->
+    length below = S.cur_sp fs -> Proofs_C01_set.frame_caps fs caps ->
+    Proofs_C01_set.R1 tco r ce slots caps -> Proofs_C01_set.R2 e r ce ->
+    Proofs_C01_set.Srel tco (b_store st) H -> Proofs_C01_set.Grel tco (b_glob st) MG ->
+    length fs + n <= limit ->
+    Proofs_C01_set.tail_ok tail C (pc + length (S.compile tco ce (length slots) tail e)) (length slots) fs ->
+    match res with
+    | BVal v st' => exists mv MG' H', Proofs_C01_set.vrel tco v mv /\ Proofs_C01_set.Srel tco (b_store st') H' /\
+        Proofs_C01_set.Grel tco (b_glob st') MG' /\
+        Proofs_C01_set.outcome limit tail (S.mkVM C pc (below ++ slots) fs MG H) C
+          (pc + length (S.compile tco ce (length slots) tail e)) below slots fs mv MG' H'
+    | BErr k => exists s', S.star limit (S.mkVM C pc (below ++ slots) fs MG H) s' /\ S.vm_step limit s' = S.SErr k
+    end).
+
+Check (C01_program_simulation_set :
+  forall limit tco n ds main res,
+  brun_program n ds main = Some res -> n <= limit ->
+  match res with
+  | BVal v _ => exists k mv s', Proofs_C01_set.vrel tco v mv /\ S.vm_program limit tco false k ds main = S.RDone mv s'
+  | BErr ek => exists k, S.vm_program limit tco false k ds main = S.RErr ek
+  end).
+
+Check (C01_program_render_set :
+  forall limit tco n ds main res,
+  brun_program n ds main = Some res -> n <= limit ->
+  exists k, S.render_run (S.vm_program limit tco false k ds main) = render_bresult (Some res)).
+
+Check (C01_set_returns_old :
+  forall n r g e st v st1 old,
+  beval n r e st = Some (BVal v st1) -> Core.lookup g (b_glob st1) = Some old ->
+  beval (S n) r (BSetG g e) st = Some (BVal old (mkB (b_store st1) ((g, v) :: b_glob st1))) /\
+  Core.lookup g ((g, v) :: b_glob st1) = Some v).
+
 Print Assumptions C01_simulation_L0.
 Print Assumptions C01_simulation_tail.
 Print Assumptions C01_program_simulation.
@@ -127,3 +164,7 @@ Print Assumptions C01_call_args_exact.
 Print Assumptions C01_simulation_rest.
 Print Assumptions C01_callglobal_fusion.
 Print Assumptions C01_callglobaltail_fusion.
+Print Assumptions C01_simulation_set.
+Print Assumptions C01_program_simulation_set.
+Print Assumptions C01_program_render_set.
+Print Assumptions C01_set_returns_old.
